@@ -68,8 +68,8 @@ ASSUMPTIONS = [
     'the score function respects the PaddedArray masks it is given (as the GP '
     'acquisition functions do); it puts non-zero weight on padded dimensions '
     'so that a wrong mask or a leaked value shows in the reward',
-    'seed sensitivity is only demanded of layouts with a continuous feature, a '
-    'strictly concave score and an initial pool that is not filled from priors',
+    'seed sensitivity is only demanded of runs without priors on layouts with a '
+    'continuous feature and a strictly concave score',
     'jax.debug.callback delivers every batch evaluated inside fori_loop',
 ]
 REQUIRED_COUNTERS = [
@@ -123,10 +123,10 @@ FIRST = [
     ('eagle', 'cat', 'NONE', 'one', 'many'),
     ('eagle-ucbpe', 'mixed', 'MULTIPLES_OF_10', 'gt', 'few'),
     ('eagle', 'cont', 'POWERS_OF_2', 'eq', 'none'),
-    ('random', 'cont', 'NONE', 'one', 'many'),
-    ('eagle-mult', 'mixed', 'NONE', 'lt', 'few'),
+    ('random', 'cont', 'NONE', 'one', 'none'),
+    ('eagle-mult', 'mixed', 'NONE', 'lt', 'none'),
     ('eagle', 'mixed', 'MULTIPLES_OF_10', 'all', 'few'),
-    ('random', 'cat', 'NONE', 'lt', 'few'),
+    ('random', 'cat', 'NONE', 'lt', 'many'),
     ('eagle', 'cont', 'NONE', 'gt', 'many'),
     ('eagle-ucbpe', 'cat', 'POWERS_OF_2', 'one', 'few'),
     ('random', 'mixed', 'POWERS_OF_2', 'lt', 'few'),
@@ -842,6 +842,9 @@ def check_result(rep, env, case, p, prior_c, prior_z, res, log):
           cond = ''
         elif env.pool and g['max_evals'] < env.pool:
           cond = ':evaluations-fewer-than-pool'
+        elif np.isnan(ps).any():
+          # eagle keeps a NaN-scored prior in its pool instead of a better one
+          cond = ':nan-scored-prior'
         else:
           cond = ':full-budget'
         rep.violation(
@@ -982,9 +985,10 @@ def run_group(rep, gi, g, n_cases):
                   'rewards': facts.get('rw', np.zeros(0))[:4],
                   'evaluations': facts.get('ev_n')})
     # seed sensitivity on strictly concave scores over a continuous feature
-    # (a pool filled from priors alone is legitimately independent of the seed)
+    # (with priors the result may legitimately not depend on the seed: a pool
+    # filled from priors alone, or a prior that is the best point of the run)
     if (fn == 'quad' and g['ncont'] and 'rw' in facts and len(seed_pairs) < 3
-        and (g['n_prior'] == 0 or g['strategy'] == 'random')):
+        and g['n_prior'] == 0):
       case2 = dict(case, seed=case['seed'] + 1)
       nrng = np.random.default_rng(case2['pseed'])
       p = gen_params(env, fn, nrng)
